@@ -111,9 +111,10 @@ def lookupAddr (d : Disk) (m : Mem) (sc : Scope) (ad : Addr) : Option Acct × Me
     match d.addrs sc ad with
     | none => (none, m)
     | some a =>
-      match loadAcct d m sc a with
-      | (none, m1) => (none, m1)
-      | (some _, m1) => (some a, { m1 with addrs := setAddr m1.addrs sc ad (some a) })
+      let ld := loadAcct d m sc a
+      match ld.1 with
+      | none => (none, ld.2)
+      | some _ => (some a, { ld.2 with addrs := setAddr ld.2.addrs sc ad (some a) })
 
 /-- account-name index lookup (`lookupAccount`): the account ≤ last whose row carries the name -/
 def lookupName (d : Disk) (sc : Scope) (nm : Name) : Option Acct :=
@@ -147,28 +148,27 @@ def putAddr (d : Disk) (sc : Scope) (a : Acct) (ad : Addr) : Disk :=
         let r' : Row := if ad.internal then { r with int := ad.idx + 1 } else { r with ext := ad.idx + 1 }
         setRow d.rows sc a (some r') }
 
-/-- the write loop of `nextAddresses`: `n` addresses from index `i`, each written and read back through the cache -/
+/-- the write loop of `nextAddresses`: `n` addresses from index `i`, each written and read back through
+`loadAndCacheAddress` (no cache check: the cache entry is (over)written eagerly) -/
 def issueLoop (sc : Scope) (a : Acct) (key : Key) (internal : Bool) : Nat → Nat → Disk → Mem → Disk × Mem × List Addr
   | 0, _, d, m => (d, m, [])
   | n + 1, i, d, m =>
     let ad : Addr := ⟨key, internal, i⟩
-    let d1 := putAddr d sc a ad
-    -- read-back through `loadAndCacheAddress` (no cache check): the cache entry is (over)written eagerly
-    let m1 : Mem := { m with addrs := setAddr m.addrs sc ad (some a) }
-    let (d2, m2, l) := issueLoop sc a key internal n (i + 1) d1 m1
-    (d2, m2, ad :: l)
+    let r := issueLoop sc a key internal n (i + 1) (putAddr d sc a ad) { m with addrs := setAddr m.addrs sc ad (some a) }
+    (r.1, r.2.1, ad :: r.2.2)
 
 /-- `nextAddresses(account, n, internal)` inside transaction `t` -/
 def issue (t : Tx) (sc : Scope) (a : Acct) (internal : Bool) (n : Nat) : Tx × Except Err (List Addr) :=
-  match loadAcct t.d t.m sc a with
-  | (none, m1) => ({ t with m := m1 }, .error .acctNotFound)
-  | (some r, m1) =>
+  let ld := loadAcct t.d t.m sc a
+  match ld.1 with
+  | none => ({ t with m := ld.2 }, .error .acctNotFound)
+  | some r =>
     let nxt := if internal then r.int else r.ext
-    if n > maxAddrs ∨ nxt + n > maxAddrs then ({ t with m := m1 }, .error .tooMany)
-    else if n > 0 ∧ (t.d.rows sc a).isNone then ({ t with m := m1 }, .error .dbError)
+    if n > maxAddrs ∨ nxt + n > maxAddrs then ({ t with m := ld.2 }, .error .tooMany)
+    else if n > 0 ∧ (t.d.rows sc a).isNone then ({ t with m := ld.2 }, .error .dbError)
     else
-      let (d2, m2, l) := issueLoop sc a r.key internal n nxt t.d m1
-      ({ d := d2, m := m2, pend := t.pend ++ [⟨sc, a, internal, nxt + n, l⟩] }, .ok l)
+      let lp := issueLoop sc a r.key internal n nxt t.d ld.2
+      ({ d := lp.1, m := lp.2.1, pend := t.pend ++ [⟨sc, a, internal, nxt + n, lp.2.2⟩] }, .ok lp.2.2)
 
 def applyPend (m : Mem) (p : Pend) : Mem :=
   if p.addrs.isEmpty then m else
@@ -190,6 +190,7 @@ inductive Res
   | addr (ad : Addr)
   | acct (a : Acct)
   | imported (a : Acct) (r : Row) (ext int : List Addr)
+deriving DecidableEq, Repr
 
 inductive Op
   | newAddr (sc : Scope) (a : Acct) (internal : Bool)
@@ -204,21 +205,31 @@ inductive Op
   | unlock
   | cmp (scopes : List Scope) (us : List (Scope × Addr))
 
+/-- a transaction whose only write is ONE `nextAddresses(.., 1, ..)`: rolled back when that fails or when the
+request is a dry run / fails afterwards (`abort`), committed otherwise -/
+def issue1 (s : State) (t : Tx) (sc : Scope) (a : Acct) (internal : Bool) (abort : Option Res) : State × Res :=
+  let r := issue t sc a internal 1
+  match r.2 with
+  | .error e => (rollback s r.1, .err e)
+  | .ok l =>
+    match l with
+    | [] => (rollback s r.1, .err .dbError)
+    | ad :: _ =>
+      match abort with
+      | some res => (rollback s r.1, if res = .ok then .addr ad else res)
+      | none => (commit r.1, .addr ad)
+
 /-- wallet.NewAddress / NewChangeAddress -/
 def stepNewAddr (s : State) (sc : Scope) (a : Acct) (internal : Bool) : State × Res :=
-  match issue (begin s) sc a internal 1 with
-  | (t, .error e) => (rollback s t, .err e)
-  | (t, .ok l) =>
-    match l with
-    | ad :: _ => (commit t, .addr ad)
-    | [] => (commit t, .ok)
+  issue1 s (begin s) sc a internal none
 
 /-- wallet.CurrentAddress -/
 def stepCurAddr (s : State) (sc : Scope) (a : Acct) : State × Res :=
-  match loadAcct s.disk s.mem sc a with
-  | (none, m1) => ({ s with mem := m1 }, .err .acctNotFound)
-  | (some r, m1) =>
-    let s1 : State := { s with mem := m1 }
+  let ld := loadAcct s.disk s.mem sc a
+  let s1 : State := { s with mem := ld.2 }
+  match ld.1 with
+  | none => (s1, .err .acctNotFound)
+  | some r =>
     if r.ext = 0 then stepNewAddr s1 sc a false
     else
       let lastAd : Addr := ⟨r.key, false, r.ext - 1⟩
@@ -227,40 +238,34 @@ def stepCurAddr (s : State) (sc : Scope) (a : Acct) : State × Res :=
 
 /-- harness op: NewAddress, then a credit to the address and `Manager.MarkUsed` (drops the address cache entry) -/
 def stepFund (s : State) (sc : Scope) (a : Acct) : State × Res :=
-  match stepNewAddr s sc a false with
-  | (s1, .addr ad) =>
-    ({ disk := { s1.disk with funded := s1.disk.funded ++ [(sc, ad)] }
-       mem := { (lookupAddr s1.disk s1.mem sc ad).2 with
-                addrs := setAddr (lookupAddr s1.disk s1.mem sc ad).2.addrs sc ad none } }, .addr ad)
-  | r => r
+  let r := stepNewAddr s sc a false
+  match r.2 with
+  | .addr ad =>
+    let m1 := (lookupAddr r.1.disk r.1.mem sc ad).2
+    ({ disk := { r.1.disk with funded := r.1.disk.funded ++ [(sc, ad)] }
+       mem := { m1 with addrs := setAddr m1.addrs sc ad none } }, .addr ad)
+  | _ => r
 
 /-- `findEligibleOutputs`: `Manager.AddrAccount` of every unspent output (cache effects); returns whether one of
 them belongs to (scope, account) -/
 def scanFunded (d : Disk) (sc : Scope) (a : Acct) : List (Scope × Addr) → Mem → Bool × Mem
   | [], m => (false, m)
-  | (sc', ad) :: rest, m =>
-    let (r, m1) := lookupAddr d m sc' ad
-    let (b, m2) := scanFunded d sc a rest m1
-    ((sc' == sc && r == some a) || b, m2)
+  | p :: rest, m =>
+    let lk := lookupAddr d m p.1 p.2
+    let r := scanFunded d sc a rest lk.2
+    ((p.1 == sc && lk.1 == some a) || r.1, r.2)
 
 /-- wallet.CreateSimpleTx → txToOutputs -/
 def stepCreateTx (s : State) (sc : Scope) (a : Acct) (dry huge nf : Bool) : State × Res :=
   if s.mem.locked then (s, .err .locked) else
-  let t := begin s
-  match loadAcct t.d t.m sc a with
-  | (none, m1) => (rollback s { t with m := m1 }, .err .acctNotFound)
-  | (some _, m1) =>
-    let (have_, m2) := scanFunded t.d sc a t.d.funded m1
-    if huge || !have_ then (rollback s { t with m := m2 }, .err .insufficient) else
-    match issue { t with m := m2 } sc a true 1 with
-    | (t1, .error e) => (rollback s t1, .err e)
-    | (t1, .ok l) =>
-      match l with
-      | [] => (rollback s t1, .err .dbError)
-      | ad :: _ =>
-        if dry then (rollback s t1, .addr ad)
-        else if nf then (rollback s t1, .err .notifyFail)
-        else (commit t1, .addr ad)
+  let ld := loadAcct s.disk s.mem sc a
+  match ld.1 with
+  | none => ({ s with mem := ld.2 }, .err .acctNotFound)
+  | some _ =>
+    let sf := scanFunded s.disk sc a s.disk.funded ld.2
+    if huge || !sf.1 then ({ s with mem := sf.2 }, .err .insufficient) else
+    issue1 s { d := s.disk, m := sf.2, pend := [] } sc a true
+      (if dry then some .ok else if nf then some (.err .notifyFail) else none)
 
 /-- wallet.FundPsbt -/
 def stepFundPsbt (s : State) (sc : Scope) (a : Acct) : Option Nat → State × Res
@@ -268,45 +273,43 @@ def stepFundPsbt (s : State) (sc : Scope) (a : Acct) : Option Nat → State × R
   | some i =>
     match s.disk.funded[i]? with
     | none => (s, .err .noCoin)
-    | some (scC, adC) =>
+    | some c =>
       -- DecorateInputs: AddressInfo of the input's address
-      let m0 := (lookupAddr s.disk s.mem scC adC).2
-      let s0 : State := { s with mem := m0 }
-      let t := begin s0
-      match loadAcct t.d t.m sc a with
-      | (none, m1) => (rollback s0 { t with m := m1 }, .err .acctNotFound)
-      | (some _, m1) =>
-        match issue { t with m := m1 } sc a true 1 with
-        | (t1, .error e) => (rollback s0 t1, .err e)
-        | (t1, .ok l) =>
-          match l with
-          | [] => (commit t1, .ok)
-          | ad :: _ => (commit t1, .addr ad)
+      let m0 := (lookupAddr s.disk s.mem c.1 c.2).2
+      let ld := loadAcct s.disk m0 sc a
+      match ld.1 with
+      | none => ({ s with mem := ld.2 }, .err .acctNotFound)
+      | some _ => issue1 s { d := s.disk, m := ld.2, pend := [] } sc a true none
+
+/-- `InvalidateAccountCache` -/
+def inval (m : Mem) (sc : Scope) (a : Acct) : Mem := { m with accts := setRow m.accts sc a none }
 
 /-- wallet.ImportAccount / ImportAccountDryRun (`n` preview addresses per branch) -/
 def stepImport (s : State) (dry : Bool) (sc : Scope) (nm : Name) (key : Key) (n : Nat) : State × Res :=
   if key = 0 then (s, .err .badKey) else
-  let t := begin s
-  let acct := t.d.last sc + 1
+  let acct := s.disk.last sc + 1
   if nm = 0 then (s, .err .badName) else
-  if (lookupName t.d sc nm).isSome then (s, .err .dupName) else
-  let d1 : Disk := { t.d with rows := setRow t.d.rows sc acct (some ⟨nm, key, 0, 0⟩), last := setLast t.d.last sc acct }
-  match loadAcct d1 t.m sc acct with
-  | (none, m1) => (rollback s { t with m := m1 }, .err .acctNotFound)
-  | (some r, m1) =>
-    let t1 : Tx := { d := d1, m := m1, pend := [] }
-    if !dry then (commit t1, .imported acct r [] []) else
-    -- `defer manager.InvalidateAccountCache(account)` runs on every exit from here on
-    let inval (m : Mem) : Mem := { m with accts := setRow m.accts sc acct none }
-    match issue t1 sc acct false n with
-    | (t2, .error e) => (rollback s { t2 with m := inval t2.m }, .err e)
-    | (t2, .ok ext) =>
-      match issue t2 sc acct true n with
-      | (t3, .error e) => (rollback s { t3 with m := inval t3.m }, .err e)
-      | (t3, .ok int) =>
-        match loadAcct t3.d t3.m sc acct with
-        | (none, m4) => (rollback s { t3 with m := inval m4 }, .err .acctNotFound)
-        | (some r', m4) => (rollback s { t3 with m := inval m4 }, .imported acct r' ext int)
+  if (lookupName s.disk sc nm).isSome then (s, .err .dupName) else
+  let d1 : Disk := { s.disk with rows := setRow s.disk.rows sc acct (some ⟨nm, key, 0, 0⟩), last := setLast s.disk.last sc acct }
+  let ld := loadAcct d1 s.mem sc acct
+  match ld.1 with
+  | none => ({ s with mem := ld.2 }, .err .acctNotFound)
+  | some r =>
+    if !dry then ({ disk := d1, mem := ld.2 }, .imported acct r [] []) else
+    -- `defer manager.InvalidateAccountCache(account)` runs on every exit from here on; the transaction is
+    -- rolled back in every case
+    let e := issue { d := d1, m := ld.2, pend := [] } sc acct false n
+    match e.2 with
+    | .error err => ({ s with mem := inval e.1.m sc acct }, .err err)
+    | .ok ext =>
+      let i := issue e.1 sc acct true n
+      match i.2 with
+      | .error err => ({ s with mem := inval i.1.m sc acct }, .err err)
+      | .ok int =>
+        let ld2 := loadAcct i.1.d i.1.m sc acct
+        match ld2.1 with
+        | none => ({ s with mem := inval ld2.2 sc acct }, .err .acctNotFound)
+        | some r' => ({ s with mem := inval ld2.2 sc acct }, .imported acct r' ext int)
 
 /-- wallet.RenameAccount -/
 def stepRename (s : State) (sc : Scope) (a : Acct) (nm : Name) : State × Res :=
@@ -319,8 +322,7 @@ def stepRename (s : State) (sc : Scope) (a : Acct) (nm : Name) : State × Res :=
     let m1 : Mem := match s.mem.accts sc a with
       | none => s.mem
       | some c => { s.mem with accts := setRow s.mem.accts sc a (some { c with name := nm }) }
-    let (_, m2) := loadAcct d1 m1 sc a
-    ({ disk := d1, mem := m2 }, .ok)
+    ({ disk := d1, mem := (loadAcct d1 m1 sc a).2 }, .ok)
 
 /-- wallet.NextAccount -/
 def stepNewAcct (s : State) (sc : Scope) (nm : Name) : State × Res :=
@@ -330,8 +332,7 @@ def stepNewAcct (s : State) (sc : Scope) (nm : Name) : State × Res :=
   if (lookupName s.disk sc nm).isSome then (s, .err .dupName) else
   let d1 : Disk := { s.disk with rows := setRow s.disk.rows sc acct (some ⟨nm, 100 + acct, 0, 0⟩),
                                  last := setLast s.disk.last sc acct }
-  let (_, m1) := loadAcct d1 s.mem sc acct
-  ({ disk := d1, mem := m1 }, .acct acct)
+  ({ disk := d1, mem := (loadAcct d1 s.mem sc acct).2 }, .acct acct)
 
 /-- cache effects of the harness's query sweep on the running wallet: AccountProperties of accounts 0..last+1 of
 every scope, AddressInfo of every listed address -/
